@@ -1,0 +1,27 @@
+//go:build verif
+
+package das
+
+// Contracts for the deductive verifier in /verif (govc). Comments only; build tag "verif".
+
+//@ extern (*github.com/celestiaorg/celestia-node/header.ExtendedHeader).Height
+//@   pure
+
+// ---------------------------------------------------------------------------------------------
+// C04: a persisted checkpoint covers every height that is still in flight.
+//
+// A height h is covered by a checkpoint if resuming from it samples h again: h is at or above the
+// catch-up cursor, or recorded as failed, or inside a resumable worker range.
+//@ pure func covered(cp checkpoint, h uint64) bool = h >= cp.SampleFrom || has(cp.Failed, h) || (exists k int :: 0 <= k && k < len(cp.Workers) && cp.Workers[k].From <= h && h <= cp.Workers[k].To)
+
+//@ func newCheckpoint
+//@   property C04
+//@   requires forall i int :: 0 <= i && i < len(stats.Workers) ==> stats.Workers[i].JobType == catchupJob || stats.Workers[i].JobType == recentJob || stats.Workers[i].JobType == retryJob
+//@   requires forall i int :: 0 <= i && i < len(stats.Workers) ==> stats.Workers[i].From <= stats.Workers[i].Curr && (stats.Workers[i].JobType == recentJob ==> stats.Workers[i].From == stats.Workers[i].To)
+//@   requires forall i int :: 0 <= i && i < len(stats.Workers) && stats.Workers[i].JobType == retryJob ==> (forall h uint64 :: stats.Workers[i].From <= h && h <= stats.Workers[i].To ==> has(stats.Failed, h))
+//@   ensures result.SampleFrom == uint64(stats.CatchupHead + 1) && result.NetworkHead == stats.NetworkHead && result.Failed == stats.Failed
+//@   ensures forall i int, h uint64 :: 0 <= i && i < len(stats.Workers) && stats.Workers[i].Curr <= h && h <= stats.Workers[i].To ==> covered(result, h)
+//@   loop 1: invariant -1 <= rangeindex && rangeindex < len(stats.Workers)
+//@   loop 1: hint len(workers) >= len(head(workers)) && forall k int :: 0 <= k && k < len(head(workers)) ==> workers[k] == head(workers[k])
+//@   loop 1: hint (stats.Workers[rangeindex].JobType == catchupJob || (stats.Workers[rangeindex].JobType == recentJob && stats.Workers[rangeindex].To < sampleFrom)) ==> len(workers) == len(head(workers)) + 1 && workers[len(workers)-1].From == stats.Workers[rangeindex].Curr && workers[len(workers)-1].To == stats.Workers[rangeindex].To
+//@   loop 1: invariant forall j int :: 0 <= j && j <= rangeindex && (stats.Workers[j].JobType == catchupJob || (stats.Workers[j].JobType == recentJob && stats.Workers[j].To < sampleFrom)) ==> (exists k int :: 0 <= k && k < len(workers) && workers[k].From == stats.Workers[j].Curr && workers[k].To == stats.Workers[j].To)
